@@ -181,7 +181,13 @@ EXPORT errno_t _wcsfc_s_chk(wchar_t *restrict dest, rsize_t dmax,
 #endif
         if (unlikely(c > 1)) {
             /* can this be further decomposed? */
-            errno_t rc = towfc_s(tmp, 4, cp);
+            errno_t rc;
+            /* a multi-char folding stores up to 4 cells, decomposed or not
+               (U+1F82 => 3b1 313 300 3b9): the same room as the single-char
+               branch below asks for */
+            if (unlikely(dmax < 5))
+                goto too_small;
+            rc = towfc_s(tmp, 4, cp);
             if (rc < 0)
                 return rc;
             /* I-Dot for Turkish and Azeri */
